@@ -570,6 +570,11 @@ def check_assignment_feasibility(v_distribution, u_distribution, d):
     is_assignment_feasible: bool
         Whether such injective f: {1,...,p} → {1,...,q} exists.
     """
+    # d arrives as a scalar of the (smallest sufficient) dtype of the distance
+    # matrices; with NumPy >= 2 the index arithmetic below (i + (d - 1)) would
+    # be carried out in int8 and wrap around for diameters above 64
+    d = int(d)
+
     def next_i_and_j(min_i, min_j):
         # Find reversed v distribution index of smallest v entries yet
         # to be assigned. Then find index in reversed u distribution of
